@@ -66,7 +66,11 @@ class capture_pymoca_log:
 
 def new_sandbox():
     _run_counter[0] += 1
-    d = os.path.join(scratch_root(), "run")
+    # constant path length whatever the scratch base and pid are: absolute paths end up inside
+    # pickled cache files, and their length must not change sizes and byte offsets between runs
+    root = scratch_root()
+    d = os.path.join(root, "run")
+    d += "_" * max(0, 96 - len(d))
     shutil.rmtree(d, ignore_errors=True)
     os.makedirs(d)
     return d
